@@ -94,9 +94,12 @@ pub fn generate_delta_streaming(
     let mut ops = Vec::new();
     let mut literal_buffer = Vec::new();
 
-    // Sliding window buffer: large enough for rolling hash + read ahead
-    let mut window = Vec::with_capacity(block_size + CHUNK_SIZE);
-    let mut chunk_buf = vec![0u8; CHUNK_SIZE];
+    // Sliding window buffer: large enough for rolling hash + read ahead. A chunk holds at least one
+    // block: with a block size above 256 KB the refill test below could never fire, and everything
+    // after the first chunk was missing from the delta (no error).
+    let chunk_size = CHUNK_SIZE.max(block_size);
+    let mut window = Vec::with_capacity(block_size + chunk_size);
+    let mut chunk_buf = vec![0u8; chunk_size];
 
     // Read initial chunk
     let mut bytes_read = source_file.read(&mut chunk_buf)?;
